@@ -170,6 +170,6 @@ SUBS = [
 
 MANIFEST = {
     "technique": "property-based differential testing: Ace.shadow_of compared in both directions with an exact inclusion oracle (refsem) on derived pairs; Acl.shading/shadow_of compared with a model report built from the oracle relation",
-    "text": "exploration: both implication directions judged on thousands (quick) / 250 000 (thorough) group-free pairs x 5 skip lists, and the ACL-level report compared with the specification model on hundreds / 20 000 ACLs with deliberate duplicates",
+    "text": "exploration: both implication directions judged on thousands (quick) / 250 000 (thorough) group-free pairs x 5 skip lists, and the ACL-level report compared with the specification model on hundreds / 20 000 ACLs with deliberate duplicates, incl. repeated queries with other skip lists on the same object",
     "note": "trusted: lib/refsem.py; the sliver 'top port condition = all of 1..65535, bottom without ports' is excluded and counted; established is excluded here (C03 covers it for soundness)",
 }
